@@ -5,16 +5,22 @@ from fractions import Fraction
 
 ID = 'C20'
 LEVEL = 'other'
-CONTRACTS = ['contracts.trackers', 'contracts.trackers_float']
+CONTRACTS = ['contracts.trackers', 'contracts.trackers_float', 'contracts.explainer']
 CLOSURE = [
     {'fn': 'WelfordTracker.update#float', 'opts': {'float_mode': True}},
     {'fn': 'Tracker.var#float', 'opts': {'float_mode': True}},
     {'fn': 'ExponentialSmoothingTracker.update#float', 'opts': {'float_mode': True}},
+    # the explainers feed the trackers the plain differences of the loss values - no thresholding, rounding or clipping in between
+    {'fn': 'IncrementalPFI.explain_one', 'clauses': ['pfi_val', 'pfi_dom', 'pfi_importance'], 'safety': False},
+    {'fn': 'IncrementalSage.explain_one', 'clauses': ['chain', 'contrib_dom', 'importance_step'], 'safety': False},
 ]
 EXPLANATION = ("Operation-level refinement: with +,-,*,/ uninterpreted (IEEE operations, commutativity only) the shipped "
                "updates are proved to be exactly the Welford/West recurrence mean' = mean (+) (v (-) mean) (/) N', "
                "M2' = M2 (+) (v (-) mean) (*) (v (-) mean'), var = M2 (/) max(N,1), and the convex-combination smoothing step "
                "(or its incremental twin) - the recurrences for which the error bounds of the statement are cited theorems. "
+               "Explainers (over the reals): each per-observation contribution handed to the trackers is exactly the difference of the "
+               "loss values (PFI: mean imputed loss - original loss; SAGE: consecutive chain losses), so nothing between the loss and the "
+               "tracker thresholds, rounds or clips. "
                "The numeric bounds themselves are only a bounded run-time contract against exact rational arithmetic over "
                "a deterministic adversarial family of streams (labelled bounded, not proved).")
 ASSUMPTIONS = ["cited theorems: Chan/Golub/LeVeque 1983, Higham 2002 sec. 1.9 (Welford update is backward stable for the mean; "
@@ -103,6 +109,117 @@ def _check_stream(name, s, fails):
     return obs
 
 
+def _explainer_runs(tier, seed):
+    """explainer runs driven by adversarial loss values: the float importance values against exact rational arithmetic on the
+    SAME recorded loss values (contributions rebuilt from the recorded loss / imputer calls, exact tracker recurrences)"""
+    import warnings
+    import numpy as np
+    warnings.simplefilter('ignore')
+    from ixai.explainer import IncrementalPFI, IncrementalSage
+    from ixai.imputer import MarginalImputer
+    from ixai.storage import GeometricReservoirStorage, UniformReservoirStorage
+    eps = 2.0 ** -52
+    names = ['a', 'b', 'c']
+    fails, evals, distinct, sample = [], 0, set(), None
+    n_obs = 120 if tier == 'quick' else 1500
+    losses = {
+        'unit': lambda y, p: (y - p['output']) ** 2,
+        'offset1e6': lambda y, p: 1e6 + (y - p['output']) ** 2,
+        'offset1e9': lambda y, p: 1e9 + (y - p['output']) ** 2,
+        'scale1e-8': lambda y, p: 1e-8 * (y - p['output']) ** 2,
+        'scale1e8': lambda y, p: 1e8 * (y - p['output']) ** 2,
+    }
+
+    def model(x):
+        return {'output': 2.0 * x['a'] - 1.0 * x['b'] + 0.0 * x['c']}
+    for kind in ('pfi', 'sage'):
+        for dynamic, alpha in ((False, 0.001), (True, 0.05)):
+            for lname, lf in losses.items():
+                log = []
+
+                def loss(y, p, lf=lf, log=log):
+                    v = float(lf(y, p))
+                    log.append(('loss', v))
+                    return v
+                st = GeometricReservoirStorage(size=20, store_targets=False) if dynamic else UniformReservoirStorage(size=20, store_targets=False)
+
+                class Rec(MarginalImputer):
+                    def impute(self, feature_subset, x_i, n_samples=1):
+                        log.append(('impute', frozenset(feature_subset)))
+                        return super().impute(feature_subset, x_i, n_samples)
+                E = IncrementalPFI if kind == 'pfi' else IncrementalSage
+                ex = E(model, loss, list(names), storage=st, imputer=Rec(model, 'joint', st), smoothing_alpha=alpha,
+                       n_inner_samples=2, dynamic_setting=dynamic)
+                rng = random.Random(seed)
+                random.seed(seed)
+                np.random.seed(seed)
+                exact = {f: Fraction(0) for f in names}
+                cnt = 0
+                maxloss = 0.0
+                a = Fraction(alpha)
+                bad = None
+                for t in range(n_obs):
+                    x = {'a': rng.gauss(0, 1), 'b': rng.gauss(0, 1), 'c': rng.gauss(0, 1)}
+                    y = 2.0 * x['a'] - x['b'] + rng.gauss(0, 0.1)
+                    del log[:]
+                    got = ex.explain_one(x, y)
+                    if not log:
+                        continue
+                    # rebuild this observation's contributions from the recorded calls, exactly
+                    contrib = {}
+                    vals = [v for k, v in log if k == 'loss']
+                    maxloss = max([maxloss] + [abs(v) for v in vals])
+                    if kind == 'pfi':
+                        orig = Fraction(log[0][1])
+                        cur, acc = None, []
+                        for k, v in log[1:] + [('impute', None)]:
+                            if k == 'impute':
+                                if cur is not None and acc:
+                                    contrib[cur] = sum(acc) / len(acc) - orig
+                                cur, acc = (next(iter(v)) if v else None), []
+                            else:
+                                acc.append(Fraction(v))
+                    else:
+                        prev = Fraction(log[1][1])          # log[0]: model loss, log[1]: marginal loss
+                        remaining = set(names)
+                        i = 2
+                        while i + 1 < len(log) + 1 and i < len(log):
+                            sub = log[i][1]
+                            f = next(iter(remaining - set(sub)))
+                            remaining = set(sub)
+                            lv = Fraction(log[i + 1][1])
+                            contrib[f] = prev - lv
+                            prev = lv
+                            i += 2
+                    if set(contrib) != set(names):
+                        bad = f'could not rebuild the contributions from the recorded calls at t={t}'
+                        break
+                    cnt += 1
+                    for f in names:
+                        exact[f] = exact[f] + (contrib[f] - exact[f]) / cnt if not dynamic else (1 - a) * exact[f] + a * contrib[f]
+                    bound = 64 * eps * maxloss / alpha if dynamic else 64 * cnt * eps * maxloss
+                    for f in names:
+                        g = float(got[f])
+                        if not math.isfinite(g) or abs(Fraction(g) - exact[f]) > Fraction(bound):
+                            bad = (f'{kind} dynamic={dynamic} loss={lname}: importance[{f}] = {g!r} after {t + 1} observations, exact arithmetic on the '
+                                   f'same loss values gives {float(exact[f])!r} (bound {bound:.3g})')
+                            break
+                    if bad:
+                        break
+                evals += 1
+                distinct.add((kind, dynamic, lname))
+                if bad:
+                    fails.append({'key': 'explainer_float', 'summary': bad, 'observed': bad})
+                elif lname == 'offset1e9' and kind == 'pfi':
+                    sample = {'explainer': kind, 'dynamic': dynamic, 'loss': lname, 'observations': n_obs,
+                              'importance': {f: float(got[f]) for f in names}, 'exact': {f: float(exact[f]) for f in names}}
+    return {'name': 'explainer_float_vs_exact', 'evaluations': evals, 'distinct_nontrivial': len(distinct),
+            'rule': 'IncrementalPFI / IncrementalSage (static: running mean, dynamic: smoothing 0.05) x losses with offsets 1e6, 1e9 and '
+                    'scales 1e-8, 1, 1e8; the contributions are rebuilt exactly (Fractions) from the recorded loss and imputer calls and fed to '
+                    'the exact tracker recurrences; bounds 64 n eps max|loss| (running mean), 64 eps max|loss| / alpha (smoothing); distinct = '
+                    '(explainer, mode, loss family)', 'bound': f'{n_obs} observations, 3 features', 'sample': sample, 'failures': fails}
+
+
 def BOUNDED(tier, seed):
     rng = random.Random(seed)
     fails = []
@@ -124,4 +241,5 @@ def BOUNDED(tier, seed):
              'rule': 'deterministic adversarial family (sorted, alternating, constant-then-jump at magnitudes 1e-8,1,1e8; offsets '
                      '1e6 and 1e9 times the spread; seeded uniform) x stream lengths; exact oracle = fractions.Fraction for mean/variance, 80-digit decimal arithmetic for the smoothing recursion; '
                      'bounds: |mean err| <= 8 n eps max|v|, var rel err <= 8 n eps kappa, |es err| <= 8 eps max|v| / alpha; distinct = (family, n)',
-             'bound': f'n <= {max(sizes)}', 'sample': sample, 'failures': fails}]
+             'bound': f'n <= {max(sizes)}', 'sample': sample, 'failures': fails},
+            _explainer_runs(tier, seed)]
